@@ -276,6 +276,9 @@ PURE_EXTERNALS = {
     're.escape': re.escape,
 }
 
+STRUCTURAL_EXTERNALS = {'builtins.zip', 'itertools.zip_longest', 'itertools.chain', 'builtins.reversed',
+                        'itertools.chain.from_iterable'}
+
 EXTERNAL_TYPES = {
     'builtins.str': str, 'builtins.list': list, 'builtins.tuple': tuple, 'builtins.int': int,
     'builtins.dict': dict, 'builtins.set': set, 'builtins.bool': bool,
@@ -312,9 +315,10 @@ def contains_abstract(v, depth=0):
 
 
 class Interp:
-    def __init__(self, model, loop_bound=2, max_steps=200000, max_depth=40):
+    def __init__(self, model, loop_bound=2, max_steps=200000, max_depth=40, while_bound=None):
         self.model = model
         self.loop_bound = loop_bound
+        self.while_bound = while_bound if while_bound is not None else loop_bound + 6
         self.max_steps = max_steps
         self.max_depth = max_depth
         self.gstate = {}        # (modname, name) -> value written at call time
@@ -329,6 +333,7 @@ class Interp:
         self.func_hooks = {}    # FuncInfo.qualname -> callable(interp, args, kwargs, receiver) or None
         self.trace_calls = None  # optional list collecting (caller, callee) FuncInfo pairs
         self.on_stmt = None      # optional callback(interp, frame, stmt)
+        self.on_recursion = None  # optional callback(interp, fi, args, kwargs) for re-entered functions
 
     # ---- bookkeeping ---------------------------------------------------
 
@@ -459,6 +464,11 @@ class Interp:
                 return {'True': True, 'False': False, 'None': None}[name]
             if hasattr(builtins, name):
                 return self.ref_to_value(ExternalRef('builtins.' + name))
+            f = frame
+            while f is not None:
+                if f.func is not None and _stores_name(f.func.node, name):
+                    raise Raised(ExcVal('UnboundLocalError', (name,)))
+                f = f.parent
             raise InterpError('unresolved name %r in %s' % (name, frame.modname))
         return self.ref_to_value(ref, frame.modname, name)
 
@@ -698,6 +708,17 @@ class Interp:
                 if len(args) > 1:
                     return args[1]
                 raise Raised(ExcVal('StopIteration'))
+            if isinstance(it, Obj):
+                hit = it.cls.lookup('__next__')
+                if hit is not None and hit[0] == 'method':
+                    try:
+                        return self.call_function(hit[1], [it], {})
+                    except Raised as r:
+                        if r.exc.kind == 'StopIteration' and len(args) > 1:
+                            return args[1]
+                        raise
+            if isinstance(it, list):
+                raise Raised(ExcVal('TypeError', ('list is not an iterator',)))
             return Unknown('next')
         if d == 'builtins.map':
             fn = args[0]
@@ -748,6 +769,11 @@ class Interp:
             return Obj(args[0]) if isinstance(args[0], ClassInfo) else Unknown('object.__new__')
         if d.startswith('object.'):
             return None
+        if d in STRUCTURAL_EXTERNALS and not any(is_abstract(a) for a in args) and not contains_abstract(kwargs):
+            try:
+                return PURE_EXTERNALS[d](*[self.concretize(a) for a in args], **kwargs)
+            except Exception as e:
+                raise Raised(ExcVal(type(e).__name__, (str(e),)))
         if d in PURE_EXTERNALS and callable(PURE_EXTERNALS[d]):
             return self.call_python(PURE_EXTERNALS[d], args, kwargs)
         if d.startswith('builtins.') and d.split('.')[-1].endswith(('Error', 'Exception', 'StopIteration', 'Interrupt')):
@@ -841,6 +867,10 @@ class Interp:
             r = hook(self, fi, args, kwargs)
             if r is not _MISSING:
                 return r
+        if self.on_recursion is not None and any(fr.func is fi for fr in self.call_stack):
+            r = self.on_recursion(self, fi, args, kwargs)
+            if r is not _MISSING:
+                return r
         if self.trace_calls is not None and self.call_stack:
             self.trace_calls.append((self.call_stack[-1].func, fi))
         if self.depth >= self.max_depth:
@@ -889,13 +919,31 @@ class Interp:
         if isinstance(v, (list, tuple, str, set, frozenset, range)):
             return list(v)
         if isinstance(v, Obj):
+            nx = v.cls.lookup('__next__')
+            if nx is not None and nx[0] == 'method':
+                return self._iter_obj(v, nx[1])
             hit = v.cls.lookup('__iter__')
             if hit is not None:
                 return Unknown('iter-obj').abs_iter(self)
+            bases = [b for b in v.cls.mro() if not isinstance(b, ClassInfo)]
+            if any(getattr(b, 'dotted', '') == 'builtins.list' for b in bases):
+                return list(v.attrs.get('__items__', []))
+        if v is None or isinstance(v, (int, float, bool)):
+            raise Raised(ExcVal('TypeError', ('cannot unpack/iterate %r' % (v,),)))
         try:
             return list(v)
         except TypeError:
             raise InterpError('cannot iterate %r' % (v,))
+
+    def _iter_obj(self, v, nxt):
+        while True:
+            try:
+                x = self.call_function(nxt, [v], {})
+            except Raised as r:
+                if r.exc.kind == 'StopIteration':
+                    return
+                raise
+            yield x
 
     # ---- statements -------------------------------------------------------
 
@@ -1027,7 +1075,7 @@ class Interp:
                 raise Raised(ExcVal(type(e).__name__), st)
         elif isinstance(t, (ast.Tuple, ast.List)):
             star = [i for i, e in enumerate(t.elts) if isinstance(e, ast.Starred)]
-            if is_abstract(v) and not hasattr(v, 'abs_iter'):
+            if isinstance(v, Unknown) or (is_abstract(v) and not hasattr(v, 'abs_iter')):
                 for e in t.elts:
                     self.assign(e.value if isinstance(e, ast.Starred) else e, Unknown('unpack'), frame, st)
                 return
@@ -1068,7 +1116,7 @@ class Interp:
                 self.exec_block(st.orelse, frame)
                 return
             n += 1
-            if n > self.loop_bound + 6:
+            if n > self.while_bound:
                 self.note('loop-truncated', getattr(st, 'lineno', 0))
                 raise LoopTruncated(st)
             try:
@@ -1575,6 +1623,13 @@ def _as_load(t):
     t2 = copy.copy(t)
     t2.ctx = ast.Load()
     return t2
+
+
+def _stores_name(fnode, name):
+    for n in ast.walk(fnode):
+        if isinstance(n, ast.Name) and n.id == name and isinstance(n.ctx, ast.Store):
+            return True
+    return False
 
 
 def _is_generator(fnode):
